@@ -4,6 +4,7 @@
   area is an oracle value (Skia), so "paints nothing" is relative to `area = 0 ↔ empty interior`.
 -/
 import PicoSVG.Model.Paint
+import PicoSVG.Proofs.PruneP
 
 set_option linter.unusedSectionVars false
 namespace PicoSVG.C18
@@ -68,5 +69,50 @@ theorem pathops_error_keeps (s : PaintAttrs α) (e : PyErr) (hd : s.display ≠ 
 theorem display_none_never_paints (s : PaintAttrs α) (moveOnly : Bool) (area : Except PyErr α)
     (h : s.display = "none") : mightPaint s moveOnly area = false := by
   unfold mightPaint; simp [h]
+
+
+section
+open PicoSVG.Spec.Composite
+variable {β : Type} [CommRing β] [DecidableEq β] [LT β] [DecidableLT β]
+
+/-- C18 (what "paints nothing" means): at any canvas point, the layers a shape contributes (Spec/ShapePaint.lean: fill
+    where the point is inside the fill region, stroke where it is inside the outline, both under the shape's opacity)
+    composite to the transparent colour whenever `might_paint` answers no — for every combination of display, fill,
+    stroke, stroke-width and the three opacities; the two geometric premises say what the move-only test and the area
+    oracle stand for (`moveOnly_draws_nothing` discharges the first on the path interpreter) -/
+theorem unpainted_paints_nothing (s : PaintAttrs β) (fr fg fb sr sg sb : β) (moveOnly : Bool) (area : Except PyErr β)
+    (inFill inStroke : Bool)
+    (hm : moveOnly = true → inFill = false ∧ inStroke = false)
+    (ha : ∀ a, area = .ok a → ¬ (0 < a) → inFill = false)
+    (h : mightPaint s moveOnly area = false) :
+    onto clear (shapeAt s fr fg fb sr sg sb inFill inStroke) = clear :=
+  PruneP.unpainted_paints_nothing s fr fg fb sr sg sb moveOnly area inFill inStroke hm ha h
+
+/-- C18 (consequence): removing a shape reported as unable to paint leaves every stack of layers — whatever lies below,
+    above or around it — unchanged at every point of the canvas -/
+theorem prune_preserves_render (s : PaintAttrs β) (fr fg fb sr sg sb : β) (moveOnly : Bool) (area : Except PyErr β)
+    (inFill inStroke : Bool) (bg : RGBA β) (pre post : List (Layer β))
+    (hm : moveOnly = true → inFill = false ∧ inStroke = false)
+    (ha : ∀ a, area = .ok a → ¬ (0 < a) → inFill = false)
+    (h : mightPaint s moveOnly area = false) :
+    onto bg (pre ++ shapeAt s fr fg fb sr sg sb inFill inStroke ++ post) = onto bg (pre ++ post) :=
+  PruneP.prune_preserves_render s fr fg fb sr sg sb moveOnly area inFill inStroke bg pre post hm ha h
+
+/-- … and nothing that shows is pruned: a displayed shape with a visible stroke, or a visible fill whose area — when it
+    can be computed — is positive, is reported as possibly painting -/
+theorem painted_is_kept (s : PaintAttrs β) (area : Except PyErr β) (hd : s.display ≠ "none")
+    (h : strokeVisible s = true ∨ (fillVisible s = true ∧ ∀ a, area = .ok a → 0 < a)) :
+    mightPaint s false area = true := PruneP.painted_is_kept s area hd h
+end
+
+section
+open PicoSVG.Spec
+variable {γ : Type} [Add γ] [Sub γ] [Mul γ] [OfNat γ 0] [OfNat γ 1]
+/-- C18 (move-only paths): a command sequence whose every command is a moveto — the `moveOnly` test of `might_paint` —
+    draws no segment at all under the path interpreter of SVG 8.3: nothing to fill, nothing to stroke -/
+theorem moveOnly_draws_nothing (cmds : List (Cmd γ)) (segs : List (Seg γ))
+    (hm : cmds.all (fun c => Path.toUpper c.1 == 'M') = true) (h : interp cmds = some segs) :
+    ∀ sg ∈ segs, ∃ p, sg = Seg.move p := PruneP.interpFrom_moveOnly cmds initState segs hm h
+end
 
 end PicoSVG.C18
